@@ -759,7 +759,9 @@ def run(chk, tier, replay):
             shapes_seen[r.shape] += 1
     outside = sorted(s for s in shapes_seen if s not in allowed)
     chk.part("files", differing_from_fault_free_file=dict(files_differ))
-    chk.part("fault_points", scenarios=per_scn, total=len(meta_of), distinct_allocation_sites=len(sites))
+    by_file = collections.Counter(x.split("@")[1].split(":")[0] for x in sites)
+    chk.part("fault_points", scenarios=per_scn, total=len(meta_of), distinct_allocation_sites=len(sites),
+             sites_by_file=dict(by_file), sites=sorted(sites))
     chk.part("outcomes", shapes_seen=dict(shapes_seen), allowed_shapes=len(allowed),
              allowed_shapes_seen=len([s for s in shapes_seen if s in allowed]), shapes_outside_small_model=outside,
              trace_stats=dict(stats))
